@@ -271,6 +271,43 @@ func TestVerifC02(t *testing.T) {
 		}
 	})
 
+	// signing from fresh goroutines at EVERY STACK DEPTH of a sweep, with sources that use a lot of stack in their first
+	// Read: nonce and key buffers must follow the stack wherever it moves
+	{
+		// (the model's answers are computed before the sweep: a stack the model has already grown does not move again)
+		var sel []*c02case
+		var selR, selS [][]byte
+		for _, c := range cases {
+			if len(sel) < 16 && len(c.priv) == 32 && len(c.stream) <= 4096 {
+				if model := ref.SM2Sign(c.d, c.e, c.stream); model.R != nil {
+					sel, selR, selS = append(sel, c), append(selR, ref.B32(model.R)), append(selS, ref.B32(model.S))
+				}
+			}
+		}
+		hk.AtStackDepths(hk.N(700, 2000), 96<<10, 8, func(depth int) {
+			c, wr, ws := sel[depth%len(sel)], selR[depth%len(sel)], selS[depth%len(sel)]
+			rr, ss, err := SignHashed(&stackHungryReader{inner: newScript(c.stream), hungry: depth%3 == 0}, c.priv, c.e)
+			if err != nil || !bytes.Equal(rr, wr) || !bytes.Equal(ss, ws) {
+				r.Violation("signature-differs-from-standard:stack-grows-inside-the-call", hk.D{"stack_depth_frames": depth, "priv": hk.Hex(c.priv), "e": hk.Hex(c.e), "got_r": hexOrNil(rr), "model_r": hk.Hex(wr), "err": errStr(err)})
+			}
+		})
+		r.EvalN("stack-depth-sweep", hk.N(700, 2000))
+		// a source that hands the buffer to a WORKER goroutine and delivers in pieces, with a garbage collection (stack
+		// shrink of the parked caller) between the pieces; the caller comes from a deep call chain
+		for i := 0; i < hk.N(10, 60); i++ {
+			c, wr, ws := sel[i%len(sel)], selR[i%len(sel)], selS[i%len(sel)]
+			var rr, ss []byte
+			var err error
+			h := newHandoffReader(newScript(c.stream), []int{16, 8, 31, 1}[i%4])
+			afterLargeStack([]int{150, 400, 1200, 60}[(i/4)%4], func() { rr, ss, err = SignHashed(h, c.priv, c.e) })
+			h.Close()
+			if err != nil || !bytes.Equal(rr, wr) || !bytes.Equal(ss, ws) {
+				r.Violation("signature-differs-from-standard:source-fills-the-buffer-from-another-goroutine", hk.D{"priv": hk.Hex(c.priv), "e": hk.Hex(c.e), "got_r": hexOrNil(rr), "model_r": hk.Hex(wr), "err": errStr(err), "piece": []int{16, 8, 31, 1}[i%4]})
+			}
+			r.Eval("source:worker-goroutine-fills-the-buffer")
+		}
+	}
+
 	// first candidates from the LIMB GRID around n (every limb 0, n_i - 1, n_i, n_i + 1 or all ones): above n they must be
 	// skipped, below they must be used - a limb-wise range test that forgets a condition is wrong on some of these only
 	{
